@@ -23,12 +23,13 @@ def _setup(tier, seed):
 
 
 def base_train(n, fam):
-    """irregular spacings in [0.5, 10] s from a small LCG (deterministic, no two spacings equal)"""
+    """irregular spacings in [0.5, 10] s from a small LCG (deterministic, no two spacings equal); family >= 10: spacings in [5, 10] s"""
     x = 12345 + 7919 * fam + 104729 * SEED[0]
+    lo, span = (0.5, 9.5) if fam < 10 else (5.0, 5.0)
     sp = []
     for _ in range(n):
         x = (1103515245 * x + 12345) % (2 ** 31)
-        sp.append(0.5 + 9.5 * (x / 2 ** 31))
+        sp.append(lo + span * (x / 2 ** 31))
     t = np.cumsum(sp) + 3.14159
     return t
 
@@ -135,6 +136,25 @@ def check_two(case):
     return Res(list(seen.items()), o=(n, side), tr=ntr)
 
 
+def cases_long(tier, seed):
+    """300 events spaced 5..10 s (> 2000 s): drift x duration exceeds the coarse bin, the second assignment pass has work to do"""
+    step = 10 if tier == "quick" else 3
+    return [("long", 300, 10, ma) for ma in range(-1, 300, step)]
+
+
+def check_long(case):
+    _, n, fam, ma = case
+    seen = {}
+    ntr = 0
+    for mb in list(range(-1, n, 29)) + [n - 1]:
+        for drift in (-100.0, 95.0, 100.0):
+            for offset, jit, linear in ((0.0, 1, False), (77.7, 0, True)):
+                for k, m in run_one(n, fam, set() if ma < 0 else {ma}, set() if mb < 0 else {mb}, drift, offset, jit, linear):
+                    seen.setdefault(k + ":long-train", "n=%d (spacings 5-10 s) missing a=%r b=%r drift=%r offset=%r jitter=%r linear=%r: %s" % (n, ma, mb, drift, offset, jit, linear, m))
+                ntr += 1
+    return Res(list(seen.items()), o=(ma < 0,), tr=ntr)
+
+
 CHECK = {
     "property": "C19",
     "rule": "one case = (base train, index of the event missing on side a); the check enumerates every index missing on side b x 5 drifts x 6 offsets x "
@@ -147,5 +167,6 @@ CHECK = {
     "clauses": [
         Clause("missing<=1+1", "every placement of <= 1 missing event on each side", cases=cases_one, check=check_one, setup=_setup),
         Clause("missing<=2", "every placement of 2 missing events on one side x {0,1} on the other", cases=cases_two, check=check_two, setup=_setup),
+        Clause("long-trains", "300 events over > 2000 s at +-100 ppm: placements of one missing event per side on a stride", cases=cases_long, check=check_long, setup=_setup),
     ],
 }
